@@ -41,7 +41,7 @@ FNAME = {"properties": "browser/foo.properties", "dtd": "foo.dtd", "ini": "x/foo
          "ftl": "foo.ftl", "inc": "defines.inc", "android": "res/values/strings.xml"}
 PARSER_CODE = {"android": 0, "dtd": 1, "properties": 2, "ini": 3, "inc": 4, "ftl": 5, "po": 6}
 
-K_ENTITY, K_COMMENT, K_WHITE, K_JUNK, K_STICKY, K_OTHER, K_PLACEHOLDER = range(7)
+K_ENTITY, K_COMMENT, K_WHITE, K_JUNK, K_STICKY, K_OTHER, K_PLACEHOLDER, K_SECTION = range(8)
 
 
 # ------------------------------------------------------------ implementation ---
@@ -71,6 +71,8 @@ def ckind(e):
         return K_ENTITY
     if isinstance(e, StickyEntry):
         return K_STICKY
+    if isinstance(e, P.IniSection):
+        return K_SECTION
     if isinstance(e, P.Entry):
         return K_OTHER
     raise TypeError(type(e))
@@ -270,8 +272,10 @@ def gen_items(fmt, rng, nkeys, lang="L", blanks=True):
             items.append(("blank",))
         com = rng.choice(COMMENTS) if rng.random() < 0.3 else None
         items.append(("ent", key_name(fmt, k), render_value(fmt, rng, lang), com))
-        if fmt == "ini" and rng.random() < 0.06:
-            sec = "Sec%d" % rng.randint(1, 2)
+        if fmt == "ini" and rng.random() < 0.1:
+            # a further section; half of the time named like an entity key of the pool
+            sec = "Sec%d" % rng.randint(1, 2) if rng.random() < 0.5 else \
+                key_name(fmt, rng.randrange(nkeys))
             if ("sec", sec) not in items:
                 items.append(("sec", sec))
     if loose and rng.random() < 0.15:
@@ -412,8 +416,8 @@ def parsed_items(fmt, entries):
         elif k == K_COMMENT:
             seen[e.val] = seen.get(e.val, 0) + 1
             out.append(("c", e.val, seen[e.val]))
-        elif k == K_OTHER:
-            out.append(("s" if fmt == "ini" else "p", e.key))
+        elif k in (K_OTHER, K_SECTION):
+            out.append(("s" if k == K_SECTION else "p", e.key))
     return out
 
 
@@ -456,8 +460,8 @@ def flat_parsed(fmt, entries):
             if com is not None:
                 out.extend(("c", part) for part in com.split("\n"))
             out.append(("e", e.key))
-        elif k == K_OTHER:
-            out.append(("s" if fmt == "ini" else "p", e.key))
+        elif k in (K_OTHER, K_SECTION):
+            out.append(("s" if k == K_SECTION else "p", e.key))
     return out
 
 
@@ -535,6 +539,22 @@ def gen_case(rng, fmt=None):
     return {"fmt": fmt, "items": versions, "texts": texts}
 
 
+# fixed cases of the ordinary stream (run through the same oracle as the generated ones):
+# an .ini section named like an entity key (repaired in /repo: it used to lose the section)
+FIXED_CASES = [
+    ("ini", [[("sec", "a"), ("ent", "a", "1", None)]]),
+    ("ini", [[("sec", "a"), ("ent", "a", "1", None)]] * 3),
+    ("ini", [[("sec", "Strings"), ("ent", "a", "1", None), ("sec", "a"), ("ent", "b", "2", None)],
+             [("sec", "Strings"), ("ent", "a", "0", None), ("sec", "a"), ("ent", "c", "3", "note"),
+              ("ent", "b", "2", None)]]),
+    ("ini", [[("sec", "a"), ("ent", "b", "1", None)], [("sec", "b"), ("ent", "a", "1", None)]]),
+]
+
+
+def fixed_cases():
+    return [{"fmt": fmt, "items": vs, "texts": [render(fmt, v) for v in vs]} for fmt, vs in FIXED_CASES]
+
+
 def model_versions(name, texts):
     return [[centry(e) for e in walk_bytes(name, t.encode("utf-8"))] for t in texts]
 
@@ -597,8 +617,12 @@ def run(chk, runner_ok):
     n = chk.n(2000, 30000)
     cases, impl, reqs = [], [], []
     ereqs, eimpl, ecases = [], [], []
+    fixed = fixed_cases()
     for i in range(n):
-        case = gen_case(rng, FORMATS[i % len(FORMATS)] if i < 600 else None)
+        if i < len(fixed):
+            case = fixed[i]
+        else:
+            case = gen_case(rng, FORMATS[i % len(FORMATS)] if i < 600 else None)
         name = FNAME[case["fmt"]]
         res, text = impl_merge(name, case["texts"])
         chk.count(("ch", case["fmt"], case["texts"]))
@@ -710,7 +734,6 @@ def impl_entries(name, texts, keep):
 # ------------------------------------------------------------- known findings ---
 WITNESSES = [
     # (signature, format, version texts)
-    ("ini-section-name-equals-key", "ini", ["[a]\na=1\n"]),
     ("merge-ws-fold-loses-blank-line", "android",
      ['<?xml version="1.0" encoding="utf-8"?>\n<resources>\n  <string name="a">A</string>\n</resources>\n',
       '<?xml version="1.0" encoding="utf-8"?>\n<resources>\n  <!-- note -->\n\n</resources>\n']),
@@ -724,12 +747,6 @@ def run_witnesses(chk, only=None):
         if only is not None and texts != only:
             continue
         res, text = impl_merge(FNAME[fmt], texts)
-        if sig == "ini-section-name-equals-key":
-            if text != texts[0]:
-                chk.fail(sig, {"fmt": fmt, "versions": texts},
-                         {"output": text, "expected": texts[0],
-                          "why": "IniSection.key is the section name: `[a]` and `a=1` share the "
-                                 "dict key 'a' in parse_resource, the section is dropped"})
         if sig == "merge-ws-fold-loses-blank-line" and text is not None:
             entries = walk_bytes(FNAME[fmt], text.encode("utf-8"))
             standalone = [e for e in entries if ckind(e) == K_COMMENT]
